@@ -192,7 +192,8 @@ class Check:
         out = ""
         if ok:
             # re-run the (small) statement file itself to capture Print Assumptions
-            outvo = BUILD / "cases" / f"props_{self.prop}.vo"
+            (BUILD / "props_out").mkdir(parents=True, exist_ok=True)
+            outvo = BUILD / "props_out" / (Path(props_file).stem + ".vo")
             rc, out, err = sh(
                 ["timeout", "600", "coqc", "-Q", ".", "TV", "-w", "none", props_file, "-o", str(outvo)],
                 cwd=COQ,
